@@ -37,6 +37,7 @@ class FCtx(object):
             ev.guards = tuple((T.degate(g[0]), g[1]) for g in ev.raw_guards)
             ev.loops = tuple((l[0], T.degate(T.canon(l[1]))) for l in ev.loops)
         self.ex.loop_guards = dict((k, tuple((T.degate(T.canon(g[0])), g[1]) for g in v)) for k, v in self.ex.loop_guards.items())
+        self._alias_stored_locals()
         for ev in self.events:
             if ev.kind == "unsupported":
                 raise AnalysisError("unsupported statement %s in %s (line %s)" % (ev.value[1], fref.qname, ev.lineno))
@@ -45,6 +46,33 @@ class FCtx(object):
         if fref.cls is not None and args and fref.node.name not in fref.cls.staticmethods:
             self.selfname = args[0].arg
         self.params = [a.arg for a in args]
+
+    def _alias_stored_locals(self):
+        """``cell = self.table[key] = {}`` (or ``cell = {}; self.table[key] = cell``): from the store on, the local *is* the
+        attribute path it was stored under; later uses of the local are rewritten to that path so that both spellings of
+        ``self.table[key][k] = v`` look the same"""
+        for st in list(self.events):
+            if st.kind != "store" or st.value is None or st.value[0] != "local" or st.extra:
+                continue
+            root = T.root_of(st.target)
+            if root is None or root[0] != "param":
+                continue
+            loc, path = st.value, st.target
+
+            def fn(x, loc=loc, path=path):
+                if x[0] == "local" and T.same_local(x, loc):
+                    return path
+                return None
+            for ev in self.events:
+                if ev.seq <= st.seq:
+                    continue
+                for fld in ("value", "target", "raw", "raw_target"):
+                    v = getattr(ev, fld)
+                    if v is not None:
+                        setattr(ev, fld, T.subst(v, fn))
+                ev.guards = tuple((T.subst(g[0], fn), g[1]) for g in ev.guards)
+                ev.raw_guards = tuple((T.subst(g[0], fn), g[1]) for g in ev.raw_guards)
+                ev.loops = tuple((l[0], T.subst(l[1], fn)) for l in ev.loops)
 
     @staticmethod
     def _make_inliner(model, fref):
@@ -1124,10 +1152,41 @@ def value_under(cx, decide):
             continue
         if any(T.truth(g[0], decide) is (not g[1]) for g in ev.raw_guards):
             continue
-        v = T.select(ev.raw, decide)
+        v = _resolve_joins(cx, T.select(ev.raw, decide), decide, ev.seq)
         if v not in out:
             out.append(v)
     return out
+
+
+def _resolve_joins(cx, t, decide, at_seq):
+    """sep.join(<local list built from a literal and unconditional-or-decided appends>) -> the string it builds"""
+    def fn(x):
+        if not (x[0] == "call" and x[1][0] == "attr" and x[1][2] == "join" and x[1][1][0] == "const" and isinstance(x[1][1][1], str)
+                and len(x[2]) == 1 and x[2][0][0] == "local" and x[2][0][3][0] == "list"):
+            return None
+        loc = x[2][0]
+        items = [T.select(i, decide) for i in loc[3][1]]
+        for ev in cx.events:
+            if ev.seq >= at_seq:
+                break
+            touches = (ev.kind == "call" and ev.value[1][0] == "attr" and ev.value[1][1][0] == "local" and T.same_local(ev.value[1][1], loc)) \
+                or (ev.kind in ("store", "del") and ev.target is not None and T.contains(ev.target, lambda y: y[0] == "local" and T.same_local(y, loc)))
+            if not touches:
+                continue
+            if ev.kind != "call" or ev.value[1][2] != "append" or ev.loops or len(ev.value[2]) != 1:
+                return None
+            truths = [T.truth(g[0], decide) for g in ev.raw_guards]
+            if any(v is None for v in truths):
+                return None
+            if all(v is g[1] for v, g in zip(truths, ev.raw_guards)):
+                items.append(T.select(ev.raw[2][0], decide))
+        parts = []
+        for i, it in enumerate(items):
+            if i:
+                parts.append(x[1][1][1])
+            parts.append(it)
+        return T.fmt(*parts)
+    return T.canon(T.subst(t, fn))
 
 
 def atoms_decider(table, default=None):
@@ -1142,3 +1201,157 @@ def atoms_decider(table, default=None):
             return None
         return default
     return decide
+
+
+# ---- scenario evaluation: what the function does on the paths selected by an assumption ------------------------------------
+class Scenario(object):
+    """An assumption about one call: truth values for atomic conditions (``atoms``: {term: bool}, other atoms: ``default``) and
+    concrete values for some terms (``subst``: {term: ('const', v)}).  Terms are evaluated by substituting, folding lookups in
+    module-level constant tables and comparisons of constants, and resolving gates / conditional expressions whose test is
+    decided.  This is constant folding over the def-use terms -- nothing of the repository is executed."""
+
+    def __init__(self, cx, atoms=None, default=None, subst=None):
+        self.cx = cx
+        self.atoms = dict(atoms or {})
+        for k, v in list(self.atoms.items()):
+            self.atoms[canon_guard((k, True))[0]] = v if canon_guard((k, True))[1] else (not v)
+        self.default = default
+        self.map = dict(subst or {})
+
+    def assume_context(self, ev):
+        """additionally assume every not yet decided condition under which ``ev`` happens (its enclosing context)"""
+        for g in ev.raw_guards:
+            if g[0][0] == "exc":
+                continue
+            if self.truth(g[0]) is None:
+                c, pol = canon_guard((self._fold(g[0]), g[1]))
+                self.atoms[c] = pol
+        return self
+
+    def _decide(self, t):
+        if t in self.atoms:
+            return self.atoms[t]
+        if t[0] == "const":
+            return bool(t[1])
+        if t[0] in ("unary", "boolop", "ifexp", "gate"):
+            return None
+        if t[0] == "cmp" and len(t[1]) == 1:
+            c, pol = canon_guard((t, True))
+            if c in self.atoms:
+                return self.atoms[c] if pol else (not self.atoms[c])
+            if t[1][0] in ("is not", "!=", "not in"):
+                return None
+        return self.default
+
+    def _fold(self, t):
+        cx = self.cx
+
+        def table(g):
+            try:
+                return cx.const_of(g)
+            except Exception:
+                return None
+
+        def fn(x):
+            if x in self.map:
+                return self.map[x]
+            k = x[0]
+            if k == "call" and x[1][0] == "global" and x[1][1].endswith(".get") and len(x[2]) in (1, 2) and x[2][0][0] == "const" and not x[3]:
+                tab = table(("global", x[1][1][:-4]))
+                if isinstance(tab, dict):
+                    if x[2][0][1] in tab:
+                        v = tab[x[2][0][1]]
+                        return ("const", v) if isinstance(v, (str, int, float, bool, type(None))) else None
+                    return x[2][1] if len(x[2]) == 2 else ("const", None)
+            if k == "sub" and x[1][0] == "global" and x[2][0] == "const":
+                tab = table(x[1])
+                try:
+                    v = tab[x[2][1]]
+                except Exception:
+                    return None
+                return ("const", v) if isinstance(v, (str, int, float, bool, type(None))) else None
+            if k == "call" and x[1] == ("global", "len") and len(x[2]) == 1 and x[2][0][0] == "const" and isinstance(x[2][0][1], (str, tuple, list)):
+                return ("const", len(x[2][0][1]))
+            if k == "cmp" and len(x[1]) == 1:
+                a, b = x[2]
+                bv = None
+                if b[0] == "global" and x[1][0] in ("in", "not in"):
+                    tab = table(b)
+                    if isinstance(tab, (list, tuple, set, frozenset, dict, str)):
+                        bv = ("const", tab)
+                elif b[0] in ("list", "tuple", "set") and all(e[0] == "const" for e in b[1]):
+                    bv = ("const", tuple(e[1] for e in b[1]))
+                elif b[0] == "const":
+                    bv = b
+                if a[0] == "const" and bv is not None:
+                    import operator as op
+                    f = {"==": op.eq, "!=": op.ne, "<": op.lt, "<=": op.le, ">": op.gt, ">=": op.ge, "is": op.is_, "is not": op.is_not,
+                         "in": lambda p, q: p in q, "not in": lambda p, q: p not in q}.get(x[1][0])
+                    try:
+                        return ("const", bool(f(a[1], bv[1])))
+                    except Exception:
+                        return None
+            return None
+        return T.subst(t, fn)
+
+    def truth(self, t):
+        return T.truth(self._fold(t), self._decide)
+
+    def term(self, raw):
+        """the value of a (raw, gated) term in this scenario"""
+        t = self._fold(raw)
+        t = T.select(t, self._decide)
+        t = self._fold(t)
+        return _resolve_joins(self.cx, t, self._decide, 10 ** 9)
+
+    def holds(self, ev):
+        """True: the event happens in this scenario; False: it cannot; None: it depends on undecided conditions"""
+        res = True
+        for g in ev.raw_guards:
+            if g[0][0] == "exc":
+                res = None if res else res
+                continue
+            v = self.truth(g[0])
+            if v is None:
+                res = None if res is not False else False
+            elif v is not g[1]:
+                return False
+        return res
+
+    def returns(self):
+        out = []
+        for ev in self.cx.events:
+            if ev.kind == "return" and self.holds(ev) is not False:
+                v = _resolve_joins(self.cx, self.term(ev.raw), self._decide, ev.seq)
+                if v not in out:
+                    out.append(v)
+        return out
+
+    def events(self, kind=None):
+        """(event, holds) for the events that can happen in this scenario"""
+        out = []
+        for ev in self.cx.events:
+            if kind is not None and ev.kind != kind:
+                continue
+            h = self.holds(ev)
+            if h is not False:
+                out.append((ev, h))
+        return out
+
+
+def version_terms(cx):
+    """the distinct terms that read a header's version_tuple in this function"""
+    out = []
+    for ev in cx.events:
+        for t in [ev.raw, ev.raw_target] + [g[0] for g in ev.raw_guards]:
+            if t is None:
+                continue
+            for x in T.walk(t):
+                if x[0] == "attr" and x[2] == "version_tuple" and x not in out:
+                    out.append(x)
+    return out
+
+
+def at_version(cx, version, **kw):
+    """the scenario 'the document has format version <version>'"""
+    return Scenario(cx, subst=dict((t, ("const", tuple(version))) for t in version_terms(cx)), **kw)
